@@ -9,7 +9,7 @@ import tempfile
 import pv
 
 WRAPS = ("close closedir fclose mmap munmap ftruncate shm_open socket pthread_create pthread_key_create "
-         "pthread_key_delete pthread_mutex_init pthread_cond_init dlopen sem_open sem_close").split()
+         "pthread_key_delete pthread_mutex_init pthread_cond_init dlopen sem_open sem_close fcntl").split()
 
 # call name of the call language -> the library function it exercises (for finding signatures)
 FUNC = {
